@@ -249,6 +249,9 @@ impl Group for C14 {
             };
             co.out.push(l);
         }
+        if w.as_ref().map(|x| x.filter_false_positives > 0).unwrap_or(false) {
+            co.tags.insert("filter-false-positive:delivered-streamed".into());
+        }
         co.nontrivial = relevant_reorg;
         co
     }
